@@ -280,6 +280,33 @@ Proof.
 Qed.
 Print Assumptions c12_blocking_node_owned.
 
+(* Connection-level failures count.  Whatever error the go-redis command ends with other than nil, redis.Nil and
+   context.Canceled -- a refused connection, a bare io.EOF after the peer accepted and hung up, a reset, a timeout --
+   every breaker-guarded method other than PingCtx (which swallows every error by design) returns that error
+   unchanged and reports a FAILURE to its breaker.  (Eventually ErrServiceUnavailable: breaker property, driven.) *)
+Theorem c12_conn_failures_counted :
+  map row_name (filter swallows_all C12_Table.redis_table) = ["PingCtx"] /\
+  (forall e, e <> ENone -> e <> ENil -> e <> ECanceled -> C12_Gen.acceptable e = false) /\
+  forall name ps c, find_row C12_Table.redis_table name = Some (Cmd name ps c) ->
+    r_wrapped c = true -> r_nil c <> AllErrSwallowed ->
+  forall (S C B : Type) (bg : C) (exec : S -> C -> string -> list val -> S * (val * err)) repr
+         (accept : B -> bool * B) (mark : B -> bool -> B) fuel b b1 st ctx args,
+    guard_holds (r_guard c) args = false -> node_ok c args -> accept b = (true, b1) ->
+    let raw := exec st ctx (r_cmd c) (place args (r_args c)) in
+    C12_Gen.acceptable (snd (snd raw)) = false ->
+    exists v,
+      run bg exec repr accept mark ENone (Datatypes.S fuel) C12_Table.redis_table name b st ctx args
+        = Some ((mark b1 false, fst raw), (v, snd (snd raw)), Some false).
+Proof.
+  split; [exact link_all_err_swallowers|]. split.
+  - intros e H1 H2 H3. rewrite link_acceptable. destruct e; simpl; congruence.
+  - intros name ps c Hf Hw Hn S C B bg exec repr accept mark fuel b b1 st ctx args Hg Hno Ha raw He.
+    rewrite link_acceptable in He.
+    destruct (run_cmd_failure S C B exec repr accept mark c b b1 st ctx args Hw Hn Hg Hno Ha He) as [v E].
+    exists v. cbn [run]. rewrite Hf. f_equal. exact E.
+Qed.
+Print Assumptions c12_conn_failures_counted.
+
 (* ---- non-vacuity ---- *)
 Example c12_rows_exist :
   find_row C12_Table.redis_table "ZScoreCtx" =
